@@ -54,13 +54,20 @@ WellFormed(v) ==
 HasType(v, T) == WellFormed(v) /\ TypeEq(TypeOfVal(v), T)
 
 \* entries in a canonical order (by key text, then kind): Go maps have no order
+\* ... and the type annotations in canonical form, records laid out in the order of their sorted field names: the order
+\* in which a record type lists its fields, and the layout of a record value, are not observable (types that differ in it
+\* are equal, C17) -- what is compared is which value sits under which NAME
 RECURSIVE NormVal(_)
 NormVal(v) ==
-  CASE v.k = "list" -> [v EXCEPT !.els = [i \in 1..Len(v.els) |-> NormVal(v.els[i])]]
-    [] v.k = "map" -> [v EXCEPT !.ents = SortBy([i \in 1..Len(v.ents) |-> [v.ents[i] EXCEPT !.val = NormVal(@)]],
+  CASE v.k = "list" -> [v EXCEPT !.ty = CanonType(@), !.els = [i \in 1..Len(v.els) |-> NormVal(v.els[i])]]
+    [] v.k = "map" -> [v EXCEPT !.ty = CanonType(@),
+                                !.ents = SortBy([i \in 1..Len(v.ents) |-> [v.ents[i] EXCEPT !.val = NormVal(@)]],
                                                 LAMBDA a, b : SeqLT(a.kt, b.kt))]
-    [] v.k = "obj" -> [v EXCEPT !.vals = [i \in 1..Len(v.vals) |-> NormVal(v.vals[i])]]
-    [] v.k = "maybe" -> IF v.some THEN [v EXCEPT !.v = NormVal(@)] ELSE v
+    [] v.k = "obj" -> (IF v.ty.k # "obj" \/ Len(v.vals) # Len(v.ty.fs) THEN v
+                       ELSE LET ct == CanonType(v.ty) IN
+                            [k |-> "obj", ty |-> ct, vals |-> [i \in 1..Len(ct.fs) |-> NormVal(v.vals[FieldIdx(v.ty.fs, ct.fs[i].n)])]])
+    [] v.k = "maybe" -> IF v.some THEN [v EXCEPT !.ty = CanonType(@), !.v = NormVal(@)] ELSE [v EXCEPT !.ty = CanonType(@)]
+    [] v.k = "fun" -> [v EXCEPT !.ty = CanonType(@)]
     [] OTHER -> v
 
 (* ---------------- val.Key : key text of a primitive ---------------- *)
@@ -70,7 +77,7 @@ KeyText(v) ==
     [] v.k = "str" -> Quote(v.v)
     [] v.k = "time" -> Quote(TimeText(v.v))
     [] OTHER -> <<>>
-KeyKnown(v) == v.k # "num" \/ NumTextKnown(v.v)
+KeyKnown(v) == IF v.k = "num" THEN NumTextKnown(v.v) ELSE IF v.k = "time" THEN ("ns" \notin DOMAIN v \/ v.ns = 0) ELSE TRUE
 EntIdx(ents, kk, kt) == IF \E i \in 1..Len(ents) : ents[i].kk = kk /\ ents[i].kt = kt
                         THEN CHOOSE i \in 1..Len(ents) : ents[i].kk = kk /\ ents[i].kt = kt ELSE 0
 \* m.V[k.Key()] = v : replaces an existing entry, else appends
@@ -88,6 +95,7 @@ TextKnown(v) ==
     [] v.k = "obj" -> \A i \in 1..Len(v.vals) : TextKnown(v.vals[i])
     [] v.k = "maybe" -> v.some => TextKnown(v.v)
     [] v.k = "fun" -> FALSE
+    [] v.k = "time" -> "ns" \notin DOMAIN v \/ v.ns = 0        \* fractional seconds in the text: not modelled
     [] OTHER -> TRUE
 
 (* ---------------- val.String : canonical rendering ---------------- *)
@@ -141,7 +149,8 @@ RECURSIVE ValEq(_, _)
 ValEq(x, y) ==
   IF ~TypeEq(TypeOfVal(x), TypeOfVal(y)) THEN "F"
   ELSE CASE x.k = "num" -> NumEQ(x.v, y.v)
-    [] x.k \in {"bool", "str", "time"} -> B3(x.v = y.v)
+    [] x.k \in {"bool", "str"} -> B3(x.v = y.v)
+    [] x.k = "time" -> B3(x.v = y.v /\ (IF "ns" \in DOMAIN x THEN x.ns ELSE 0) = (IF "ns" \in DOMAIN y THEN y.ns ELSE 0))
     [] x.k = "list" -> IF Len(x.els) # Len(y.els) THEN "F"
                        ELSE AndAll3([i \in 1..Len(x.els) |-> ValEq(x.els[i], y.els[i])])
     [] x.k = "map" -> IF Len(x.ents) # Len(y.ents) THEN "F"
